@@ -2,7 +2,7 @@
    ONLY theorem statements; each is closed by [exact] of a lemma of C07/Proofs*.v. *)
 From Coq Require Import List NArith ZArith Bool Permutation Sorted.
 Import ListNotations.
-From Verif.C07 Require Import Model Proofs ProofsDense ProofsLib ProofsLen ProofsOps ProofsSet ProofsHist ProofsCount.
+From Verif.C07 Require Import Model Proofs ProofsDense ProofsLib ProofsLen ProofsOps ProofsSet ProofsHist ProofsCount ProofsCount2 ProofsExport.
 Local Open Scope N_scope.
 
 (* 1. goja's _defineOwnProperty decision tree (as repaired by 7dd46dd/8a03683/4561dbf) equals
@@ -119,6 +119,25 @@ Proof. exact ProofsCount.sparse_delete_counters. Qed.
 Theorem sparse_setlength_counters : forall s l, InvSp s -> ExactA (IS s) -> ExactA (IS (fst (sp_setLength s l))).
 Proof. exact ProofsCount.sparse_setlength_counters. Qed.
 
+Theorem sparse_set_counters : forall s k v, InvSp s -> ExactA (IS s) -> ExactA (fst (sp_setOwnIdx s k v)).
+Proof. exact ProofsCount2.sparse_set_counters. Qed.
+
+Theorem sparse_define_counters : forall s k dsc, InvSp s -> ExactA (IS s) -> ExactA (fst (sp_defineIdx s k dsc)).
+Proof. exact ProofsCount2.sparse_define_counters. Qed.
+
+(* ... hence along every history, starting from an array literal *)
+Theorem counters_history : forall ops a, InvA a -> ExactA a -> hist_ok a ops -> ExactA (fst (i_run a ops)).
+Proof. exact ProofsCount2.counters_history. Qed.
+
+Theorem init_exact : forall vs, (forall x, In (Some x) vs -> exists v, x = IPlain v) ->
+  ExactA (ID (mkDA vs (nlen vs) (count_present vs) 0 true (mkB true [] []))).
+Proof. exact ProofsCount2.init_exact. Qed.
+
+(* 2i. Go Export(): with exact counters the fast path of arrayObject.export returns what S prescribes (holes read
+      through the prototype) — the former findings F3 / C07-N12 cannot recur while 2h holds *)
+Theorem export_refines : forall d, InvDn d -> ExactD d -> da_length d <= MAXIDX -> d_export d = s_export (absD d).
+Proof. exact ProofsExport.export_refines. Qed.
+
 (* 3. switching the storage strategy, in either direction, never changes the abstract array *)
 Theorem transition_invisible :
   (forall a, absS (expand_d2s a) = absD a) /\
@@ -171,6 +190,11 @@ Print Assumptions dense_set_counters.
 Print Assumptions dense_define_counters.
 Print Assumptions sparse_delete_counters.
 Print Assumptions sparse_setlength_counters.
+Print Assumptions sparse_set_counters.
+Print Assumptions sparse_define_counters.
+Print Assumptions counters_history.
+Print Assumptions init_exact.
+Print Assumptions export_refines.
 Print Assumptions transition_invisible.
 Print Assumptions setlength_nonconfigurable_tail.
 Print Assumptions check_sort_sound.
